@@ -1,7 +1,9 @@
 """C08 - bounding boxes contain the geometry and are tight."""
 import ast
 
-from ..algebra import Alg, Uninterpreted, atom, const, opaque_name
+from ..algebra import RF, Alg, Uninterpreted, atom, const, opaque_name
+from ..flow import bindings
+from ..pe import PE, K, Raised
 from ..model import AnalysisError, attr_chain, call_name, norm, renamed, stmts_in, walk_no_nested
 
 EXPLANATION = (
@@ -142,50 +144,64 @@ def ordered_box(ctx, qual):
 def stroke(ctx):
     for qual, owner, impl in (("Shape.bbox", "self", True), ("Subpath.bbox", "self._path", False)):
         fn = ctx.fn(qual, "R08.2")
-        guards = [s for s in stmts_in(fn.body) if isinstance(s, ast.If) and "with_stroke" in ast.unparse(s.test)]
-        ctx.need(len(guards) == 1, "R08.2", "%s: stroke guard not found" % qual)
-        g = guards[0]
-        conj = [ast.unparse(v) for v in (g.test.values if isinstance(g.test, ast.BoolOp) and isinstance(g.test.op, ast.And) else [g.test])]
-        want = {"with_stroke", "%s.stroke_width is not None" % owner}
-        painted = [c for c in conj if "stroke is None" in c or "stroke.value is None" in c or "stroke is not None" in c]
-        ok = want <= set(conj) and len(painted) >= 1 and all(("%s.stroke is None" % owner in c and "%s.stroke.value is None" % owner in c and c.startswith("not (")) or
-                                                               ("is not None" in c) for c in painted)
-        ctx.ob("R08.2", "%s[stroke guard]" % qual, ok, " and ".join(conj), g.lineno,
+        rets0 = [r for r in ast.walk(fn) if isinstance(r, ast.Return) and isinstance(r.value, ast.Tuple) and len(r.value.elts) == 4]
+        ctx.need(len(rets0) == 1, "R08.2", "%s: final box not found" % qual)
+        dn = {x.right.id for x in rets0[0].value.elts if isinstance(x, ast.BinOp) and isinstance(x.right, ast.Name)}
+        ctx.need(len(dn) == 1, "R08.2", "%s: one delta variable expected" % qual)
+        dname = dn.pop()
+        # the statements that define the growth: every top-level statement storing the delta variable (with what it needs)
+        slice_ = [x for x in fn.body if any(isinstance(n, ast.Name) and n.id == dname and isinstance(n.ctx, ast.Store) for n in ast.walk(x))]
+        ctx.need(slice_, "R08.2", "%s: definition of %s not found" % (qual, dname))
+        g = slice_[0]
+        W = "%s.stroke_width" % owner
+        IW = "%s.implicit_stroke_width" % owner
+        S = "%s.stroke" % owner
+        SV = "%s.stroke.value" % owner
+        bad = []
+        n_sc = 0
+        grown = {}
+        for ws in (True, False):
+            for wnone in (False, True):
+                for snone in (False, True):
+                    for vnone in (False, True):
+                        for tr in ((True, False) if impl else (False,)):
+                            pe = PE(ctx.m, "R08.2", "%s[stroke growth]" % qual)
+                            pe.bind("with_stroke", K(ws))
+                            pe.bind("transformed", K(tr))
+                            pe.attrs[W] = K(None) if wnone else atom(W)
+                            pe.attrs[IW] = atom(IW)
+                            pe.attrs[S] = K(None) if snone else atom(S)
+                            if not snone:
+                                pe.attrs[SV] = K(None) if vnone else atom(SV)
+                            try:
+                                pe.run(slice_)
+                            except Raised as e:
+                                bad.append("with_stroke=%s width missing=%s stroke missing=%s: raises %s" % (ws, wnone, snone, e.name))
+                                continue
+                            got = pe.env.get(dname)
+                            n_sc += 1
+                            painted = ws and not wnone and not snone and not vnone
+                            if not isinstance(got, RF):
+                                bad.append("delta not numeric in a scenario")
+                                continue
+                            if not painted:
+                                if not got.is_zero():
+                                    bad.append("grows by %s although %s" % (got, "with_stroke is off" if not ws else "no width" if wnone else "no painted stroke"))
+                            else:
+                                grown[tr] = got
+        ctx.ob("R08.2", "%s[stroke guard]" % qual, not [b for b in bad if "grows" in b or "raises" in b], "; ".join(sorted(set(bad)))[:200] or "%d scenarios" % n_sc, g.lineno,
                "the box grows only when with_stroke is requested, a width exists and a stroke is actually painted")
-        # delta definitions
-        deltas = {}
-        for s in stmts_in([g]):
-            if isinstance(s, ast.Assign) and isinstance(s.targets[0], ast.Name):
-                ctxt = "else" if any(s is x for e in g.orelse for x in ast.walk(e)) else "then"
-                inner = None
-                p = getattr(s, "_parent", None)
-                if isinstance(p, ast.If) and p is not g:
-                    inner = ("transformed" if any(s is x for x in p.body) else "untransformed") if ast.unparse(p.test) == "transformed" else "?"
-                deltas[(ctxt, inner)] = (s.targets[0].id, s.value)
-        names = {v[0] for v in deltas.values()}
-        ctx.need(len(names) == 1, "R08.2", "%s: one delta variable expected" % qual)
-        dname = names.pop()
-
-        def half(expr_src):
-            try:
-                return Alg().ev(ast.parse(expr_src, mode="eval").body)
-            except Uninterpreted:
-                return None
-
-        ok0 = ("else", None) in deltas and Alg().ev(deltas[("else", None)][1]).is_zero()
-        ctx.ob("R08.2", "%s[no stroke -> 0]" % qual, ok0, "", g.lineno, "without a painted stroke the box is not grown")
+        ctx.ob("R08.2", "%s[no stroke -> 0]" % qual, not bad, "", g.lineno, "without a painted stroke the box is not grown")
         if impl:
-            t = deltas.get(("then", "transformed"))
-            u = deltas.get(("then", "untransformed"))
-            ok = t is not None and u is not None and Alg().ev(t[1]) == half("self.implicit_stroke_width / 2") and Alg().ev(u[1]) == half("self.stroke_width / 2")
-            ctx.ob("R08.2", "%s[half width]" % qual, ok, "%s / %s" % (ast.unparse(t[1]) if t else None, ast.unparse(u[1]) if u else None), g.lineno,
+            ok = grown.get(True) == atom(IW) / const(2) and grown.get(False) == atom(W) / const(2)
+            ctx.ob("R08.2", "%s[half width]" % qual, ok, "%s / %s" % (grown.get(True), grown.get(False)), g.lineno,
                    "grow by half the effective (transformed) stroke width when transformed, half the plain width otherwise")
         else:
-            u = deltas.get(("then", None))
-            ok = u is not None and Alg().ev(u[1]) == half("%s.stroke_width / 2" % owner)
-            ctx.ob("R08.2", "%s[half width]" % qual, ok, ast.unparse(u[1]) if u else "", g.lineno, "grow by half the stroke width")
+            ok = grown.get(False) == atom(W) / const(2)
+            ctx.ob("R08.2", "%s[half width]" % qual, ok, str(grown.get(False)), g.lineno, "grow by half the stroke width")
             # the transformed case goes through Path(self).bbox with both flags forwarded
-            d = [r for r in ast.walk(fn) if isinstance(r, ast.Return) and isinstance(r.value, ast.Call) and ast.unparse(r.value.func) == "Path(self).bbox"]
+            d = [r for r in ast.walk(fn) if isinstance(r, ast.Return) and isinstance(r.value, ast.Call) and isinstance(r.value.func, ast.Attribute) and r.value.func.attr == "bbox"
+                 and isinstance(r.value.func.value, ast.Call) and call_name(r.value.func.value) == "Path"]
             kw = {k.arg: ast.unparse(k.value) for k in d[0].value.keywords} if d else {}
             ctx.ob("R08.2", "%s[transformed delegation]" % qual, kw == {"transformed": "transformed", "with_stroke": "with_stroke"}, str(kw), fn.lineno,
                    "the transformed box of a subpath is the box of its path form with the same flags")
@@ -243,142 +259,241 @@ def union(ctx):
 # --------------------------------------------------------------------------- R08.4
 def quadratic(ctx):
     fn = ctx.fn("QuadraticBezier.bbox", "R08.4")
-    alg = Alg()
-    blocks = []
-    cur = {}
-    body = [s for s in fn.body if not (isinstance(s, ast.Expr) and isinstance(s.value, ast.Constant))]
+    body = [x for x in fn.body if not (isinstance(x, ast.Expr) and isinstance(x.value, ast.Constant))]
 
-    def handle(stmts):
-        for s in stmts:
-            if isinstance(s, ast.Assign):
-                try:
-                    alg.assign(s)
-                except Uninterpreted:
-                    if isinstance(s.targets[0], ast.Name):
-                        alg.env.pop(s.targets[0].id, None)
-                continue
-            if isinstance(s, ast.If):
-                t = ast.unparse(s.test)
-                if t.endswith("!= 0"):
-                    handle(s.body)  # generic case: non-zero second difference
-                    continue
-                if isinstance(s.test, ast.Compare) and len(s.test.ops) == 2:
-                    c = s.test
-                    ok_range = isinstance(c.left, ast.Constant) and c.left.value == 0 and isinstance(c.ops[0], ast.Lt) and isinstance(c.ops[1], ast.Lt) \
-                        and isinstance(c.comparators[1], ast.Constant) and c.comparators[1].value == 1
-                    tname = ast.unparse(c.comparators[0])
-                    lst = s.body[0] if s.body and isinstance(s.body[0], ast.Assign) else None
-                    els = s.orelse[0] if s.orelse and isinstance(s.orelse[0], ast.Assign) else None
-                    blocks.append({"t": alg.env.get(tname), "range": ok_range, "with": ast.unparse(lst.value) if lst is not None else "", "without": ast.unparse(els.value) if els is not None else "",
-                                   "target": ast.unparse(lst.targets[0]) if lst is not None else "", "line": s.lineno, "tname": tname})
-                    continue
-            if isinstance(s, ast.Return):
-                continue
-            raise AnalysisError("R08.4", "QuadraticBezier.bbox: statement not recognised: %s" % ast.unparse(s)[:60])
+    def evaluate(generic, inside):
+        """follow the function with `second difference != 0` = generic and `0 < t < 1` = inside (both axes alike)"""
+        seen = {"range": [], "t": []}
 
-    handle(body)
-    ctx.need(len(blocks) == 2, "R08.4", "QuadraticBezier.bbox: two axis blocks expected, found %d" % len(blocks))
-    for blk, ax in zip(blocks, "xy"):
-        p0, p1, p2 = (atom("self.%s.%s" % (f, ax)) for f in ("start", "control", "end"))
-        want = (p0 - p1) / (p0 - const(2) * p1 + p2)
-        ctx.ob("R08.4", "QuadraticBezier.bbox[%s root]" % ax, blk["t"] is not None and blk["t"] == want, "%s" % (blk["t"],), blk["line"],
-               "the interior extremum of a quadratic Bezier is at t = (p0 - p1)/(p0 - 2 p1 + p2)")
-        ctx.ob("R08.4", "QuadraticBezier.bbox[%s range]" % ax, blk["range"], "", blk["line"], "only roots strictly inside (0, 1) are interior extrema")
-        w = blk["with"].replace(" ", "")
-        wo = blk["without"].replace(" ", "")
-        ok = w == "[self.start.%s,self.end.%s,self.point(%s).%s]" % (ax, ax, blk["tname"], ax) and wo == "[self.start.%s,self.end.%s]" % (ax, ax) and blk["target"] == "%s_values" % ax
-        ctx.ob("R08.4", "QuadraticBezier.bbox[%s candidates]" % ax, ok, "%s | %s" % (blk["with"], blk["without"]), blk["line"],
-               "candidates are both end points plus the curve point at the root, taken on the same axis")
+        def oracle(pe, test):
+            if isinstance(test, ast.Compare) and len(test.ops) == 2:
+                l, mid, r = pe.ev(test.left), pe.ev(test.comparators[0]), pe.ev(test.comparators[1])
+                if isinstance(l, RF) and l.is_const() and l.constval() == 0 and isinstance(r, RF) and r.is_const() and r.constval() == 1 and isinstance(mid, RF):
+                    seen["range"].append(all(isinstance(o, ast.Lt) for o in test.ops))
+                    seen["t"].append(mid)
+                    return inside
+                if isinstance(l, RF) and l.is_const() and l.constval() == 1 and isinstance(r, RF) and r.is_const() and r.constval() == 0 and isinstance(mid, RF):
+                    seen["range"].append(all(isinstance(o, ast.Gt) for o in test.ops))
+                    seen["t"].append(mid)
+                    return inside
+            if isinstance(test, ast.Compare) and len(test.ops) == 1 and isinstance(test.ops[0], (ast.NotEq, ast.Eq)):
+                l, r = pe.ev(test.left), pe.ev(test.comparators[0])
+                if isinstance(l, RF) and isinstance(r, RF) and (r.is_const() and r.constval() == 0 or l.is_const() and l.constval() == 0):
+                    return generic if isinstance(test.ops[0], ast.NotEq) else not generic
+            if isinstance(test, (ast.Name, ast.Attribute, ast.BinOp)):
+                v = pe.ev(test)
+                if isinstance(v, RF):
+                    return generic
+            return None
+
+        def hook(pe_or_alg, call):
+            if isinstance(call, ast.Call) and attr_chain(call.func) == ["self", "point"] and len(call.args) == 1:
+                t = pe.ev(call.args[0])
+                if isinstance(t, RF):
+                    return K(("curve-point", t))
+            if isinstance(call, ast.Call) and call_name(call) in ("min", "max") and len(call.args) == 1:
+                v = pe.ev(call.args[0])
+                if isinstance(v, K) and isinstance(v.v, list):
+                    return K((call_name(call), v.v))
+            return None
+
+        def on_expr(pe_, st):
+            c = st.value
+            if isinstance(c, ast.Call) and isinstance(c.func, ast.Attribute) and c.func.attr == "append" and isinstance(c.func.value, ast.Name) and len(c.args) == 1:
+                lst = pe_.env.get(c.func.value.id)
+                if isinstance(lst, K) and isinstance(lst.v, list):
+                    v = component(pe_, c.args[0])
+                    lst.v.append(v)
+
+        pe = PE(ctx.m, "R08.4", "QuadraticBezier.bbox", oracle=oracle, call_hook=hook, on_expr=on_expr)
+
+        def component(pe_, node):
+            # self.point(t).x -> ("curve-point", t, "x")
+            if isinstance(node, ast.Attribute) and node.attr in ("x", "y") and isinstance(node.value, ast.Call) and attr_chain(node.value.func) == ["self", "point"]:
+                return ("curve-point", pe_.ev(node.value.args[0]), node.attr)
+            if isinstance(node, ast.Subscript) and isinstance(node.value, ast.Call) and attr_chain(node.value.func) == ["self", "point"] and isinstance(node.slice, ast.Constant):
+                return ("curve-point", pe_.ev(node.value.args[0]), "xy"[node.slice.value])
+            v = pe_.ev(node)
+            return v.v if isinstance(v, K) else v
+
+        orig_ev = pe.ev
+
+        def ev(node):
+            if isinstance(node, (ast.List, ast.Tuple)) and any(isinstance(e, (ast.Attribute, ast.Subscript)) and isinstance(getattr(e, "value", None), ast.Call) for e in node.elts):
+                return K([component(pe, e) for e in node.elts])
+            return orig_ev(node)
+
+        pe.ev = ev
+        res = pe.run(body)
+        return pe, res, seen
+
+    for generic in (True, False):
+        for inside in (True, False):
+            if not generic and inside is False:
+                continue
+            try:
+                pe, res, seen = evaluate(generic, inside)
+            except AnalysisError as e:
+                raise AnalysisError("R08.4", str(e))
+            ctx.need(res is not None and res.kind == "return" and isinstance(res.value, ast.Tuple) and len(res.value.elts) == 4, "R08.4", "QuadraticBezier.bbox: 4-tuple not returned")
+            vals = [pe.ev(e) for e in res.value.elts]
+            tag = "%s, root %s" % ("generic" if generic else "zero second difference", "inside" if inside else "outside")
+            ok_shape = all(isinstance(v, K) and isinstance(v.v, tuple) and v.v[0] == k for v, k in zip(vals, ("min", "min", "max", "max")))
+            ctx.need(ok_shape, "R08.4", "QuadraticBezier.bbox[%s]: result is not (min, min, max, max) of candidate lists" % tag)
+            for i, ax in ((0, "x"), (1, "y")):
+                lo, hi = vals[i].v[1], vals[i + 2].v[1]
+                p0, p1, p2 = (atom("self.%s.%s" % (f, ax)) for f in ("start", "control", "end"))
+                ends = [c for c in lo if isinstance(c, RF)]
+                pts = [c for c in lo if isinstance(c, tuple) and c and c[0] == "curve-point"]
+                same = lo is hi or lo == hi
+                ok = same and len(ends) == 2 and any(e == p0 for e in ends) and any(e == p2 for e in ends)
+                if generic and inside:
+                    want = (p0 - p1) / (p0 - const(2) * p1 + p2)
+                    okr = len(pts) == 1 and isinstance(pts[0][1], RF) and pts[0][1] == want
+                    ctx.ob("R08.4", "QuadraticBezier.bbox[%s root]" % ax, okr, str(pts[0][1]) if pts else "no curve point among the candidates", fn.lineno,
+                           "the interior extremum of a quadratic Bezier is at t = (p0 - p1)/(p0 - 2 p1 + p2)")
+                    ctx.ob("R08.4", "QuadraticBezier.bbox[%s candidates]" % ax, ok and len(pts) == 1 and pts[0][2] == ax, "%d end points, %d curve points" % (len(ends), len(pts)), fn.lineno,
+                           "candidates are both end points plus the curve point at the root, taken on the same axis")
+                    ctx.ob("R08.4", "QuadraticBezier.bbox[%s range]" % ax, bool(seen["range"]) and all(seen["range"]), "", fn.lineno, "only roots strictly inside (0, 1) are interior extrema")
+                elif generic and not inside:
+                    ctx.ob("R08.4", "QuadraticBezier.bbox[%s: root outside -> end points only]" % ax, ok and not pts, "%d end points, %d curve points" % (len(ends), len(pts)), fn.lineno,
+                           "a root outside (0, 1) contributes no candidate", sample=False)
+                else:
+                    tv = [p for p in pts if isinstance(p[1], RF)]
+                    okd = ok and all(p[1].is_const() and 0 < p[1].constval() < 1 for p in tv)
+                    ctx.ob("R08.4", "QuadraticBezier.bbox[%s: zero second difference]" % ax, okd, "", fn.lineno, "a vanishing second difference must not divide by zero and adds no point outside the curve", sample=False)
 
 
 def cubic(ctx):
+    """CubicBezier._real_minmax: the candidate parameters are 0, 1 and the roots of the derivative A t^2 + B t + C inside (0, 1);
+    decided by following the function under every combination of (leading coefficient negligible?, discriminant >= 0?, roots inside?)."""
     fn = ctx.fn("CubicBezier._real_minmax", "R08.4")
     v = fn.args.args[1].arg
-    # a = [c[v] for c in self]
-    avar = None
-    for s in fn.body:
-        if isinstance(s, ast.Assign) and isinstance(s.value, ast.ListComp) and ast.unparse(s.value).replace(" ", "") == "[c[%s]forcinself]" % v:
-            avar = s.targets[0].id
-    ctx.need(avar is not None, "R08.4", "_real_minmax: coordinate list not found")
-    a0, a1, a2, a3 = (atom("%s[%d]" % (avar, i)) for i in range(4))
+    body = [x for x in fn.body if not (isinstance(x, ast.Expr) and isinstance(x.value, ast.Constant))]
+    a0, a1, a2, a3 = (atom("P%d" % i) for i in range(4))
     A = a3 - const(3) * a2 + const(3) * a1 - a0
     B = const(2) * (a0 - const(2) * a1 + a2)
     C = a1 - a0
-    alg = Alg()
-    env = alg.env
-    top = [s for s in fn.body if isinstance(s, ast.If)]
-    ctx.need(len(top) == 1, "R08.4", "_real_minmax: main split not found")
-    for s in fn.body:
-        if isinstance(s, ast.Assign) and isinstance(s.targets[0], ast.Name) and s.targets[0].id not in (avar,):
-            try:
-                alg.assign(s)
-            except Uninterpreted:
-                pass
-    main = top[0]
-    t = main.test
-    ok_thr = isinstance(t, ast.Compare) and ast.unparse(t.left) == "abs(denom)" and isinstance(t.ops[0], (ast.GtE, ast.Gt))
-    ctx.ob("R08.4", "_real_minmax[split on |denom|]", ok_thr, ast.unparse(t), main.lineno, "the quadratic-root branch is taken when the leading coefficient is not negligible")
-    denom = env.get("denom")
-    ctx.ob("R08.4", "_real_minmax[denom = -A]", denom is not None and denom == -A, str(denom), main.lineno, "denom must be minus the leading coefficient of the derivative")
-    # quadratic branch
-    inner = None
-    for s in main.body:
-        if isinstance(s, ast.Assign):
-            alg.assign(s)
-        if isinstance(s, ast.If):
-            inner = s
-    delta = env.get("delta")
-    ctx.need(inner is not None and delta is not None, "R08.4", "_real_minmax: discriminant block not found")
-    ctx.ob("R08.4", "_real_minmax[discriminant guard]", ast.unparse(inner.test).replace(" ", "") in ("delta>=0", "delta>0"), ast.unparse(inner.test), inner.lineno,
-           "real roots exist only for a non-negative discriminant")
-    roots = {}
-    ranges = []
-    for s in inner.body:
-        if isinstance(s, ast.Assign):
-            alg.assign(s)
-        if isinstance(s, ast.If):
-            ranges.append(s)
-    tau = env.get("tau")
-    ctx.ob("R08.4", "_real_minmax[tau = B/2]", tau is not None and tau == B / const(2), str(tau), inner.lineno, "tau must be half the linear coefficient of the derivative")
-    ctx.ob("R08.4", "_real_minmax[delta = tau^2 - A C]", tau is not None and delta == tau * tau - A * C, str(delta), inner.lineno,
-           "delta must be a quarter of the discriminant of the derivative")
-    sq = atom(opaque_name("sqrt", [delta]))
-    r1, r2 = env.get("r1"), env.get("r2")
-    ok = r1 is not None and r2 is not None and tau is not None and ((r1 == (tau + sq) / denom and r2 == (tau - sq) / denom) or (r2 == (tau + sq) / denom and r1 == (tau - sq) / denom))
-    ctx.ob("R08.4", "_real_minmax[roots]", ok, "r1=%s r2=%s" % (r1, r2), inner.lineno, "roots of the derivative are (tau +/- sqrt(delta))/denom")
-    n_rng = 0
-    for s in ranges:
-        c = s.test
-        okr = isinstance(c, ast.Compare) and len(c.ops) == 2 and isinstance(c.left, ast.Constant) and c.left.value == 0 and isinstance(c.comparators[1], ast.Constant) \
-            and c.comparators[1].value == 1 and isinstance(c.ops[0], (ast.Lt, ast.LtE)) and isinstance(c.ops[1], (ast.Lt, ast.LtE))
-        app = ast.unparse(s.body[0]).replace(" ", "") == "local_extremizers.append(%s)" % ast.unparse(c.comparators[0])
-        n_rng += 1
-        ctx.ob("R08.4", "_real_minmax[%s kept iff in (0,1)]" % ast.unparse(c.comparators[0]), okr and app, ast.unparse(s)[:80], s.lineno, "a root is a candidate only inside the parameter interval")
-    ctx.need(n_rng == 2, "R08.4", "_real_minmax: two root range tests expected")
-    # fallback branch: linear derivative
-    alg2 = Alg()
-    inner2 = None
-    for s in main.orelse:
-        if isinstance(s, ast.Assign):
-            alg2.assign(s)
-        if isinstance(s, ast.If):
-            inner2 = s
-    ctx.need(inner2 is not None, "R08.4", "_real_minmax: fallback block not found")
-    for s in inner2.body:
-        if isinstance(s, ast.Assign):
-            alg2.assign(s)
-    r0 = alg2.env.get("r0")
-    ctx.ob("R08.4", "_real_minmax[fallback root]", r0 is not None and r0 == -C / B, str(r0), inner2.lineno, "with a vanishing leading coefficient the derivative root is -C/B")
-    gsrc = ast.unparse(inner2.test).replace(" ", "")
-    ctx.ob("R08.4", "_real_minmax[fallback guard]", gsrc in ("b!=0",), gsrc, inner2.lineno, "the linear root exists only for a non-zero slope")
-    # result: min/max of the curve at the candidates, on the same axis; end points always included
-    src = ast.unparse(fn).replace(" ", "")
-    ctx.ob("R08.4", "_real_minmax[candidates]", "local_extremizers=[0,1]" in src and "[self.point(t)[%s]fortinlocal_extremizers]" % v in src, "", fn.lineno,
-           "end points are always candidates; extrema are evaluated on the curve, on the requested axis")
+
+    def evaluate(big, disc, inside, slope):
+        seen = {"thr": [], "disc": [], "range": [], "slope": [], "roots": []}
+
+        def oracle(pe, test):
+            if isinstance(test, ast.Compare) and len(test.ops) == 2:
+                l, mid, r = pe.ev(test.left), pe.ev(test.comparators[0]), pe.ev(test.comparators[1])
+                if isinstance(mid, RF) and isinstance(l, RF) and isinstance(r, RF) and l.is_const() and r.is_const() and {l.constval(), r.constval()} == {0, 1}:
+                    strict = all(isinstance(o, (ast.Lt, ast.LtE)) for o in test.ops) if l.constval() == 0 else all(isinstance(o, (ast.Gt, ast.GtE)) for o in test.ops)
+                    seen["range"].append(strict)
+                    for q, ans in seen["roots"]:
+                        if q == mid:
+                            return ans
+                    ans = inside[len(seen["roots"]) % len(inside)]
+                    seen["roots"].append((mid, ans))
+                    return ans
+            if isinstance(test, ast.Compare) and len(test.ops) == 1:
+                l, r, op = pe.ev(test.left), pe.ev(test.comparators[0]), test.ops[0]
+                if isinstance(l, RF) and isinstance(r, RF):
+                    # |denom| against a small threshold
+                    for x, y, flip in ((l, r, False), (r, l, True)):
+                        if str(x).startswith("abs(") and y.is_const() and 0 < y.constval() <= 1e-6:
+                            seen["thr"].append(x)
+                            ge = isinstance(op, (ast.GtE, ast.Gt)) != flip
+                            return big if ge else not big
+                    for x, y, flip in ((l, r, False), (r, l, True)):
+                        if y.is_const() and y.constval() == 0 and not x.is_const():
+                            if isinstance(op, (ast.NotEq, ast.Eq)):
+                                seen["slope"].append(x)
+                                return slope if isinstance(op, ast.NotEq) else not slope
+                            seen["disc"].append(x)
+                            ge = isinstance(op, (ast.GtE, ast.Gt)) != flip
+                            return disc if ge else not disc
+            return None
+
+        def hook(pe_, call):
+            return None
+
+        def on_expr(pe_, st):
+            c = st.value
+            if isinstance(c, ast.Call) and isinstance(c.func, ast.Attribute) and c.func.attr == "append" and isinstance(c.func.value, ast.Name) and len(c.args) == 1:
+                lst = pe_.env.get(c.func.value.id)
+                if isinstance(lst, K) and isinstance(lst.v, list):
+                    val = pe_.ev(c.args[0])
+                    lst.v.append(val.v if isinstance(val, K) else val)
+
+        pe = PE(ctx.m, "R08.4", "CubicBezier._real_minmax", oracle=oracle, call_hook=hook, on_expr=on_expr)
+        pe.bind(v, atom("AXIS"))
+        orig = pe.ev
+
+        def ev(node):
+            # [c[v] for c in self] : the coordinate of the four control points on the requested axis
+            if isinstance(node, ast.ListComp) and len(node.generators) == 1 and isinstance(node.generators[0].target, ast.Name):
+                g = node.generators[0]
+                tgt = g.target.id
+                if isinstance(g.iter, ast.Name) and g.iter.id == "self" and isinstance(node.elt, ast.Subscript) and isinstance(node.elt.value, ast.Name) and node.elt.value.id == tgt \
+                        and isinstance(node.elt.slice, ast.Name) and node.elt.slice.id == v:
+                    return K([a0, a1, a2, a3])
+                it = orig(g.iter) if isinstance(g.iter, ast.Name) else None
+                if isinstance(it, K) and isinstance(it.v, list) and isinstance(node.elt, ast.Subscript) and isinstance(node.elt.value, ast.Call) \
+                        and attr_chain(node.elt.value.func) == ["self", "point"] and isinstance(node.elt.slice, ast.Name) and node.elt.slice.id == v \
+                        and len(node.elt.value.args) == 1 and isinstance(node.elt.value.args[0], ast.Name) and node.elt.value.args[0].id == tgt:
+                    return K([("curve-point", t) for t in it.v])
+            if isinstance(node, ast.Call) and call_name(node) in ("min", "max") and len(node.args) == 1:
+                val = ev(node.args[0])
+                if isinstance(val, K) and isinstance(val.v, list):
+                    return K((call_name(node), val.v))
+            return orig(node)
+
+        pe.ev = ev
+        res = pe.run(body)
+        if res is None or res.kind != "return" or not isinstance(res.value, ast.Tuple) or len(res.value.elts) != 2:
+            raise AnalysisError("R08.4", "_real_minmax: (min, max) pair not returned")
+        lo, hi = ev(res.value.elts[0]), ev(res.value.elts[1])
+        if not (isinstance(lo, K) and isinstance(hi, K) and isinstance(lo.v, tuple) and isinstance(hi.v, tuple) and lo.v[0] == "min" and hi.v[0] == "max" and lo.v[1] == hi.v[1]):
+            raise AnalysisError("R08.4", "_real_minmax: result is not (min, max) over one candidate list")
+        cands = [c[1] for c in lo.v[1] if isinstance(c, tuple) and c and c[0] == "curve-point"]
+        if len(cands) != len(lo.v[1]):
+            raise AnalysisError("R08.4", "_real_minmax: candidates are not all curve points on the requested axis")
+        return cands, seen
+
+    def has(cands, want):
+        return any(isinstance(c, RF) and c == want for c in cands)
+
+    D = (B / const(2)) * (B / const(2)) - A * C
+    sq = atom(opaque_name("sqrt", [D]))
+    roots = [((B / const(2)) + sq) / (-A), ((B / const(2)) - sq) / (-A)]
+    cands, seen = evaluate(True, True, (True, True), True)
+    ends = has(cands, const(0)) and has(cands, const(1))
+    ctx.ob("R08.4", "_real_minmax[candidates]", ends, "%d candidates" % len(cands), fn.lineno, "end points are always candidates; extrema are evaluated on the curve, on the requested axis")
+    ctx.ob("R08.4", "_real_minmax[split on |denom|]", bool(seen["thr"]) and all(t == atom(opaque_name("abs", [-A])) or t == atom(opaque_name("abs", [A])) for t in seen["thr"]), "; ".join(str(t) for t in seen["thr"])[:120], fn.lineno,
+           "the quadratic-root branch is taken when the leading coefficient (denom = -A) is not negligible")
+    ctx.ob("R08.4", "_real_minmax[discriminant guard]", bool(seen["disc"]) and all(x == D for x in seen["disc"]), "; ".join(str(x) for x in seen["disc"])[:160], fn.lineno,
+           "real roots exist only for a non-negative discriminant delta = tau^2 - A C (tau = B/2)")
+    ok = len(cands) == 4 and has(cands, roots[0]) and has(cands, roots[1])
+    ctx.ob("R08.4", "_real_minmax[roots]", ok, "; ".join(str(c) for c in cands)[:200], fn.lineno, "roots of the derivative are (tau +/- sqrt(delta))/denom")
+    ctx.ob("R08.4", "_real_minmax[range tests strict]", bool(seen["range"]) and all(seen["range"]), "", fn.lineno, "a root is a candidate only inside the parameter interval")
+    for ins, label in (((True, False), "first root only"), ((False, True), "second root only"), ((False, False), "no root inside")):
+        c2, s2 = evaluate(True, True, ins, True)
+        kept = [q for q, ans in s2["roots"] if ans]
+        ok = len(c2) == 2 + len(kept) and all(has(c2, q) for q in kept) and all(not has(c2, q) for q, ans in s2["roots"] if not ans)
+        ctx.ob("R08.4", "_real_minmax[%s kept iff in (0,1)]" % label, ok, "%d candidates" % len(c2), fn.lineno, "a root is a candidate only inside the parameter interval")
+    c3, _ = evaluate(True, False, (True, True), True)
+    ctx.ob("R08.4", "_real_minmax[negative discriminant -> end points only]", len(c3) == 2, "%d candidates" % len(c3), fn.lineno, "without real roots only the end points are candidates")
+    c4, s4 = evaluate(False, True, (True, True), True)
+    ok = len(c4) == 3 and has(c4, -C / B)
+    ctx.ob("R08.4", "_real_minmax[fallback root]", ok, "; ".join(str(c) for c in c4)[:160], fn.lineno, "with a vanishing leading coefficient the derivative root is -C/B")
+    ctx.ob("R08.4", "_real_minmax[fallback guard]", bool(s4["slope"]) and all(x == B or x == B / const(2) for x in s4["slope"]), "; ".join(str(x) for x in s4["slope"]), fn.lineno,
+           "the linear root exists only for a non-zero slope")
+    c5, _ = evaluate(False, True, (True, True), False)
+    ctx.ob("R08.4", "_real_minmax[flat derivative -> end points only]", len(c5) == 2, "%d candidates" % len(c5), fn.lineno, "a constant derivative has no interior extremum")
     bb = ctx.fn("CubicBezier.bbox", "R08.4")
-    src = ast.unparse(bb).replace(" ", "")
-    ctx.ob("R08.4", "CubicBezier.bbox[axes]", "xmin,xmax=self._real_minmax(0)" in src and "ymin,ymax=self._real_minmax(1)" in src and "returnxmin,ymin,xmax,ymax" in src.replace("(", "").replace(")", ""), "", bb.lineno,
-           "x extent from coordinate 0, y extent from coordinate 1, in (xmin, ymin, xmax, ymax) order")
+    axis = {}
+    for tg, val, n in bindings(bb):
+        if isinstance(val, ast.Call) and attr_chain(val.func) == ["self", "_real_minmax"] and len(val.args) == 1 and isinstance(val.args[0], ast.Constant) \
+                and isinstance(tg, ast.Tuple) and len(tg.elts) == 2 and all(isinstance(e, ast.Name) for e in tg.elts):
+            axis[val.args[0].value] = (tg.elts[0].id, tg.elts[1].id)
+    rets = [r for r in ast.walk(bb) if isinstance(r, ast.Return) and isinstance(r.value, ast.Tuple) and len(r.value.elts) == 4]
+    ok = set(axis) == {0, 1} and len(rets) == 1 and [getattr(e, "id", None) for e in rets[0].value.elts] == [axis[0][0], axis[1][0], axis[0][1], axis[1][1]]
+    ctx.ob("R08.4", "CubicBezier.bbox[axes]", ok, "", bb.lineno, "x extent from coordinate 0, y extent from coordinate 1, in (xmin, ymin, xmax, ymax) order")
 
 
 def arc_candidates(ctx):
